@@ -43,6 +43,16 @@ func c18Kinds() []c18Kind {
 		{name: "SimpleEMA(0.2)", mk: ema(0.2), warmup: 5, fold: "mean-then-hull"},
 		{name: "SimpleEMA(0.5)", mk: ema(0.5), warmup: 2, fold: "mean-then-hull"},
 		{name: "SimpleEMA(1)", mk: ema(1), warmup: 1, fold: "mean-then-hull"},
+		// smoothing factors whose reciprocal is not an integer (the first sample alone is always its own mean)
+		{name: "SimpleEMA(0.3)", mk: ema(0.3), warmup: 1, fold: "mean-then-hull"},
+		{name: "SimpleEMA(0.6)", mk: ema(0.6), warmup: 1, fold: "mean-then-hull"},
+		{name: "SimpleMovingVariance(0.8)", mk: func() core.MeasurementInterface {
+			m, err := measurements.NewSimpleMovingVariance(0.8, 0.8)
+			if err != nil {
+				panic(err)
+			}
+			return m
+		}, fold: "variance"},
 		{name: "SimpleMovingVariance", mk: func() core.MeasurementInterface {
 			m, err := measurements.NewSimpleMovingVariance(0.5, 0.5)
 			if err != nil {
@@ -188,6 +198,9 @@ func (s *c18State) check(t *mc.Tr, o c18Op) {
 	case "variance":
 		if g < 0 {
 			t.Fail(name+"/negative-variance", "Get() = %v", g)
+		}
+		if s.pureAdds && s.min == s.max && g != 0 {
+			t.Fail(name+"/variance-of-identical-samples", "Get() = %v after %d identical samples (%v)", g, s.n, s.min)
 		}
 	}
 }
